@@ -39,6 +39,15 @@ def NullOrRel (p : Bytes → Bytes → Prop) : Option Bytes → Option Bytes →
   | some e, some a => p e a
   | _, _ => False
 
+/-- the mathematical predicate a compound condition over two integers names -/
+def CondOp.Holds : CondOp → Int → Int → Prop
+  | .or, a, b => a ≠ 0 ∨ b ≠ 0
+  | .and, a, b => a ≠ 0 ∧ b ≠ 0
+  | .eq, a, b => a = b
+  | .ne, a, b => a ≠ b
+  | .lt, a, b => a < b
+  | .cond, a, b => a ≠ 0 ∧ b ≠ 0
+
 namespace D
 variable {F : Type}
 
